@@ -16,7 +16,7 @@ from bibtexparser.middlewares.names import (
 )
 from bibtexparser.model import Entry, Field
 
-from .. import harness, refnames, tokens
+from .. import harness, libgen, refnames, tokens
 from ..compare import canon
 from . import C13
 
@@ -94,15 +94,15 @@ def o_middleware(inp):
     fields = [Field(k, v, i) for i, (k, v) in enumerate(inp["fields"])]
     lib = Library([Entry("book", "k", fields, 0, "raw")])
     kw = dict(allow_inplace_modification=inp["inplace"])
-    l1 = SplitNameParts(**kw).transform(SeparateCoAuthors(**kw).transform(lib))
+    l1 = libgen.construct(SplitNameParts, kw, inp["fields"]).transform(libgen.construct(SeparateCoAuthors, kw, inp["fields"]).transform(lib))
     structured = [(f.key, canon(f.value)) for f in l1.blocks[0].fields] if isinstance(l1.blocks[0], Entry) else None
     if structured is None:
         return (("mw:split-failed", repr(l1.blocks[0]), "Entry"), True, ("mw",))
-    l2 = MergeCoAuthors(**kw).transform(MergeNameParts(style="last", **kw).transform(l1))
+    l2 = libgen.construct(MergeCoAuthors, kw, inp["fields"]).transform(libgen.construct(MergeNameParts, dict(kw, style="last"), inp["fields"]).transform(l1))
     e2 = l2.blocks[0]
     if not isinstance(e2, Entry) or not all(isinstance(f.value, str) for f in e2.fields):
         return (("mw:merge-type", repr(e2), "entry with string values"), True, ("mw",))
-    l3 = SplitNameParts(**kw).transform(SeparateCoAuthors(**kw).transform(l2))
+    l3 = libgen.construct(SplitNameParts, kw, ("again", inp["fields"])).transform(libgen.construct(SeparateCoAuthors, kw, ("again", inp["fields"])).transform(l2))
     e3 = l3.blocks[0]
     again = [(f.key, canon(f.value)) for f in e3.fields] if isinstance(e3, Entry) else repr(e3)
     if again != structured:
